@@ -169,5 +169,27 @@ TEXTS = {
                  "unbounded in the model."),
         "technique": "Coq proof (encoder/decoder inversion, association-list reasoning) + extracted-model differential testing + proved decision procedures on real outputs",
     },
+    "C20": {
+        "text": ("Coq theorems over an executable byte-level model (Model/Text.v) of new_source_with_text, "
+                 "resolve_media_type_and_charset_from_content_type, detect_charset, encoding_rs for_label (UTF-8/UTF-16 "
+                 "labels) + decode_without_bom_handling (WHATWG UTF-8 state machine, UTF-16LE/BE with surrogate/odd-length "
+                 "replacement, borrow rule), decode_arc_source_detail, try_get_original_bytes and size, for ALL headers, "
+                 "byte strings and oracle answers: original bytes are None or exactly the loader's bytes; the stored text "
+                 "is the UTF-8 encoding of the WHATWG decoding with one leading U+FEFF removed (although the code "
+                 "borrows the input when it can); each decoded kind is characterised by an iff on the input "
+                 "(Unchanged <-> decoder borrows and no BOM; OnlyUtf8Bom <-> UTF-8 label, well-formed, BOM; Changed "
+                 "<-> decoder does not borrow); decode error <-> unsupported label; size = text length; the text is "
+                 "well-formed UTF-8; validator = declarative well-formedness; decoders invert encoders. The JSR deferred "
+                 "content fill drops the response headers: there the decoding clause is proved only for headers naming "
+                 "no charset or UTF-8 and refuted otherwise (known finding F-C20a, confirmed on the real code every run). Tied to the "
+                 "code by exhaustive bounded + random differential execution over ~1.1 million (bytes, header, scheme, "
+                 "media, route) combinations per quick run through parse_module, real graph builds and real JSR package builds (deferred and cached)."),
+        "design_ref": "DESIGN.md section 5 C20",
+        "note": ("Trusted: Coq kernel; extraction; harness (generators, oracle call into encoding_rs for legacy labels, "
+                 "observation of Module values through the public API). Legacy encodings are oracle data, not modelled. "
+                 "DESIGN's sketch of C20_unchanged_iff was corrected to the code: legacy ASCII-compatible labels on "
+                 "pure-ASCII input also yield Unchanged."),
+        "technique": "Coq proof (encoder/decoder/validator algebra, BOM stripping byte-level vs scalar-level) + proved decision procedure on real observations + exhaustive bounded differential testing",
+    },
 }
 NOT_YET = {}
